@@ -17,6 +17,8 @@ pub enum NameSel {
     DotDot,
     /// one of the sub-directories currently present in the directory (any name if there is none)
     ExistingDir(u16),
+    /// a name outside the pool (`F<n>.TMP`): bursts of creates that fill a directory block by block
+    Fresh(u8),
 }
 
 #[derive(Clone, Debug, Serialize, Deserialize, PartialEq)]
